@@ -9,6 +9,7 @@ import (
 
 	"github.com/MixinNetwork/mixin/common"
 	"github.com/MixinNetwork/mixin/crypto"
+	"github.com/MixinNetwork/mixin/kernel/internal/clock"
 	"github.com/MixinNetwork/mixin/storage"
 	"github.com/MixinNetwork/mixin/verifgen"
 	"github.com/MixinNetwork/mixin/verifkit"
@@ -143,6 +144,7 @@ func TestVerif_C11(t *testing.T) {
 	}
 	vC11Custodian(t, r)
 	vC11AheadOfClock(t, r)
+	vC11SharedViews(t, r)
 	r.Finish()
 }
 
@@ -304,4 +306,72 @@ func vC11AheadOfClock(t *testing.T, r *verifkit.Run) {
 		}
 		return string(b)
 	})
+}
+
+// vC11SharedViews: the node's own housekeeping reads the precomputed membership views all the time (the proposal
+// loop asks for the working accepted nodes and picks the ones whose chains are up to date): whatever it does with
+// the lists it gets, the views reported for a timestamp stay what they were while no membership record is added.
+func vC11SharedViews(t *testing.T, r *verifkit.Run) {
+	rng := r.Fork("c11-shared", 0)
+	f := verifNewFeed(t, fmt.Sprintf("c11s-%d", r.Seed), 9, rng, t.TempDir(), nil)
+	defer f.stop()
+	defer clock.Reset()
+	w := verifgen.NewWallet(f.net.Label, rng, &f.net.Custodian, 3)
+	order := f.node.NodesListWithoutState(f.cursor, true)
+	lagging := map[crypto.Hash]bool{order[0].IdForNetwork: true, order[2+rng.Intn(len(order)-2)].IdForNetwork: true}
+	// the other chains close a few rounds "now"; the lagging ones stay where the genesis left them
+	f.cursor += uint64(30 * time.Minute)
+	for pass := 0; pass < 4; pass++ {
+		for _, cn := range order {
+			if lagging[cn.IdForNetwork] {
+				continue
+			}
+			dep, specs := w.Deposit(verifgen.Assets()[1+rng.Intn(3)], big.NewInt(int64(1+rng.Intn(1e6))))
+			if _, d := f.feedBatch(cn.IdForNetwork, []*common.VersionedTransaction{dep}, f.tick(uint64(time.Second))); d.Finalized {
+				w.Applied(dep, specs)
+			}
+		}
+		f.cursor += uint64(4 * time.Second)
+	}
+	clock.Reset()
+	clock.MockDiff(time.Unix(0, int64(f.cursor)).Sub(clock.Now()))
+	view := func(q uint64) string {
+		var b []byte
+		for _, acc := range []bool{false, true} {
+			for _, cn := range f.node.NodesListWithoutState(q, acc) {
+				b = append(b, []byte(fmt.Sprintf("%s|%s|%d|%d;", cn.IdForNetwork, cn.State, cn.Timestamp, cn.ConsensusIndex))...)
+			}
+			b = append(b, '#')
+		}
+		return string(b)
+	}
+	qs := []uint64{f.net.Epoch + 1, f.cursor - uint64(time.Hour), f.cursor, f.cursor + uint64(time.Hour)}
+	before := map[uint64]string{}
+	for _, q := range qs {
+		before[q] = view(q)
+	}
+	for k := 0; k < 3; k++ {
+		all := f.node.ListWorkingAcceptedNodes(f.cursor)
+		var leading []*CNode
+		if p, pv, _ := verifkit.Guard(func() { leading, _ = f.node.filterLeadingNodes(all) }); p {
+			r.Count("shared_views_housekeeping_panicked", 1)
+			t.Logf("filterLeadingNodes: %v", pv)
+			break
+		}
+		r.Eval()
+		r.Count("housekeeping_passes", 1)
+		r.Note("working_accepted_nodes", len(all))
+		r.Note("nodes_with_up_to_date_chains", len(leading))
+		if len(leading) == 0 || len(leading) >= len(order) {
+			r.Count("housekeeping_pass_without_a_mix_of_lagging_and_up_to_date_chains", 1)
+		}
+		for _, q := range qs {
+			r.Nontrivial(fmt.Sprintf("shared|%d|%d", k, q))
+			if a := view(q); a != before[q] {
+				r.Violation("C11|membership|views-changed-without-a-new-record", fmt.Sprintf("the membership views for %d changed although no membership record was added (after the proposal loop picked the nodes with up-to-date chains)", q),
+					map[string]any{"query": q, "before": before[q], "after": a})
+				return
+			}
+		}
+	}
 }
